@@ -179,32 +179,93 @@ Theorem C11_allowed_consistent_refuted_without_wf :
 Proof. exact allowed_consistent_needs_wf. Qed.
 Print Assumptions C11_allowed_consistent_refuted_without_wf.
 
-(* ---- request.has_permission / security.principals_allowed_by_permission (hand-written model, pinned) *)
-Theorem C11_has_permission_first_match : forall given ctx ps p,
-  hp_granted (has_permission true given ctx ps p)
+(* ---- the public routes of pyramid/security.py, REGENERATED (harness/c11/translate_entry.py): has_permission,
+   LegacySecurityPolicy.permits, principals_allowed_by_permission, view_execution_permitted *)
+Theorem C11_generated_has_permission_is_model : forall R given ctx ps p,
+  gen_has_permission R given ctx ps p = has_permission R given ctx ps p.
+Proof. exact gen_has_permission_is_model. Qed.
+Print Assumptions C11_generated_has_permission_is_model.
+
+Theorem C11_generated_legacy_permits_is_model : forall L ps p, gen_legacy_permits L ps p = legacy_permits L ps p.
+Proof. exact gen_legacy_permits_is_model. Qed.
+Print Assumptions C11_generated_legacy_permits_is_model.
+
+Theorem C11_generated_sec_principals_allowed_is_model : forall R L p,
+  gen_sec_principals_allowed R L p = sec_principals_allowed R L p.
+Proof. exact gen_sec_principals_allowed_is_model. Qed.
+Print Assumptions C11_generated_sec_principals_allowed_is_model.
+
+Theorem C11_generated_view_execution_permitted_is_model : forall R L ps,
+  gen_view_execution_permitted R L ps = view_execution_permitted R L ps.
+Proof. exact gen_view_execution_permitted_is_model. Qed.
+Print Assumptions C11_generated_view_execution_permitted_is_model.
+
+Theorem C11_has_permission_first_match : forall R given ctx ps p,
+  has_policy R = true ->
+  hp_granted (gen_has_permission R given ctx ps p)
   = spec_granted (match given with None => ctx | Some L => L end) ps p.
 Proof. exact has_permission_first_match. Qed.
 Print Assumptions C11_has_permission_first_match.
 
-Theorem C11_has_permission_without_policy : forall given ctx ps p,
-  has_permission false given ctx ps p = NoPolicyAllowed.
+Theorem C11_has_permission_without_policy : forall R given ctx ps p,
+  has_policy R = false -> gen_has_permission R given ctx ps p = NoPolicyAllowed.
 Proof. exact has_permission_without_policy. Qed.
 Print Assumptions C11_has_permission_without_policy.
 
-Theorem C11_sec_principals_allowed_consistent : forall L p q,
-  wf_lineage L = true ->
-  In q (sec_principals_allowed true L p) ->
-  hp_granted (has_permission true None L [q; everyone] p) = true.
+Theorem C11_sec_principals_allowed_consistent : forall R L p q,
+  has_policy R = true -> has_authz R = true -> wf_lineage L = true ->
+  In q (gen_sec_principals_allowed R L p) ->
+  hp_granted (gen_has_permission R None L [q; everyone] p) = true.
 Proof. exact sec_principals_allowed_consistent. Qed.
 Print Assumptions C11_sec_principals_allowed_consistent.
+
+(* view_execution_permitted (single secured view, view without permission, MultiView, no view) *)
+Theorem C11_view_execution_permitted_spec : forall R L ps,
+  match vep_permission R with
+  | Some q => vep_granted (gen_view_execution_permitted R L ps) = Some (spec_granted L ps q)
+  | None => forall d, gen_view_execution_permitted R L ps <> VDecision d
+  end.
+Proof. exact view_execution_permitted_spec. Qed.
+Print Assumptions C11_view_execution_permitted_spec.
+
+(* ---- malformed inputs (outside the property's quantifier): __acl__ = None / a falsy non-iterable callable (XAclNone), an
+   ACE that is not a 3-sequence (XBad).  Hand-written extension of the model (validated by a correspondence stream). *)
+Theorem C11_malformed_permits_characterised : forall L ps p d,
+  permits_x_from d L ps p =
+  match permits_from d (fst (trunc L)) ps p with
+  | DefaultDeny => if snd (trunc L) then XRaised else XDec DefaultDeny
+  | dd => XDec dd
+  end.
+Proof. exact permits_x_trunc. Qed.
+Print Assumptions C11_malformed_permits_characterised.
+
+Theorem C11_malformed_extension_conservative : forall L ps p, permits_x (embed L) ps p = XDec (permits L ps p).
+Proof. exact permits_x_conservative. Qed.
+Print Assumptions C11_malformed_extension_conservative.
+
+Theorem C11_malformed_never_grants_past_first_match : forall L ps p d,
+  permits_x L ps p = XDec d -> granted d = true -> spec_granted (fst (trunc L)) ps p = true.
+Proof. exact permits_x_grant_is_first_match. Qed.
+Print Assumptions C11_malformed_never_grants_past_first_match.
 
 (* ---- pyramid.location.lineage, regenerated from the source as [gen_lineage] (a world of __parent__ pointers, fuel for
    the while loop).  [is_lineage W r l]: l is r, then r.__parent__, ... up to the first resource whose __parent__ is None
    or missing (Proofs/C11_lineage.v). *)
-Theorem C11_generated_lineage_is_model : forall W fuel r,
-  gen_lineage W fuel r = lineage_from W fuel r.
-Proof. exact gen_lineage_is_model. Qed.
-Print Assumptions C11_generated_lineage_is_model.
+Theorem C11_generated_lineage_refines_model : forall W fuel r l,
+  lineage_from W fuel r = Some l -> gen_lineage W fuel r = Some l.
+Proof. exact gen_lineage_refines. Qed.
+Print Assumptions C11_generated_lineage_refines_model.
+
+Theorem C11_generated_lineage_sound : forall W fuel r l,
+  gen_lineage W fuel r = Some l -> match r with Some x => is_lineage W x l | None => l = [] end.
+Proof. exact gen_lineage_sound. Qed.
+Print Assumptions C11_generated_lineage_sound.
+
+(* equal up to the fuel boundary *)
+Theorem C11_generated_lineage_agrees_with_model : forall W r l fuel,
+  length l < fuel -> (gen_lineage W fuel (Some r) = Some l <-> lineage_from W fuel (Some r) = Some l).
+Proof. exact gen_lineage_agrees_with_model. Qed.
+Print Assumptions C11_generated_lineage_agrees_with_model.
 
 (* no depth bound: whatever the length of the lineage, with more fuel than that the generator yields exactly it *)
 Theorem C11_lineage_exact : forall W r l fuel,
@@ -238,3 +299,13 @@ Theorem C11_chain_world_acls : forall L e,
   world_acls (chain_world L e) (S (length (chain_world L e))) 0 = Some L.
 Proof. exact chain_world_acls. Qed.
 Print Assumptions C11_chain_world_acls.
+
+(* END TO END, everything on the left regenerated from the source: request.has_permission(p, ctx) is granted iff the first
+   matching ACE over the lineage of ctx for the policy's effective principals is an Allow *)
+Theorem C11_has_permission_end_to_end : forall R W ctx l fuel reqctx ps p,
+  has_policy R = true -> is_lineage W ctx l -> length l < fuel ->
+  exists acls, world_acls W fuel ctx = Some acls /\ acls = map (acl_of W) l
+    /\ (hp_granted (gen_has_permission R (Some acls) reqctx ps p) = true
+        <-> exists e, first_match acls ps p = Some e /\ act e = Allow).
+Proof. exact has_permission_end_to_end. Qed.
+Print Assumptions C11_has_permission_end_to_end.
